@@ -18,7 +18,26 @@ fn gen_cases(rng: &mut Rng, tier: Tier) -> Vec<Value> {
     // VERIF_C15_NONMETRIC=1 (development only): search for witnesses of the known finding S9
     let metric = std::env::var("VERIF_C15_NONMETRIC").is_err();
     // a third of the work lists contain multi-task candidates (evaluated by `eval_multi`)
-    (0..n).map(|i| if i % 3 == 2 { gen_multi_route_case_with_multi_jobs(rng, metric) } else { gen_multi_route_case(rng, metric) }).collect()
+    (0..n)
+        .map(|i| {
+            let mut case = if i % 3 == 2 { gen_multi_route_case_with_multi_jobs(rng, metric) } else { gen_multi_route_case(rng, metric) };
+            // every fifth work list has distances of the order 2^40 that differ by a few units (still exact in f64, still metric):
+            // insertion costs that agree to 10-11 digits - a comparison with a tolerance is not the order the property speaks of
+            if i % 5 == 4 {
+                let n = case["n"].as_u64().unwrap() as usize;
+                let base = 1i64 << 40;
+                if let Some(dist) = case["dist"].as_array_mut() {
+                    for (k, d) in dist.iter_mut().enumerate() {
+                        if k / n != k % n {
+                            *d = json!(d.as_i64().unwrap() + base);
+                        }
+                    }
+                }
+                case["near_ties"] = json!(true);
+            }
+            case
+        })
+        .collect()
 }
 
 fn cost_json(res: &InsertionResult) -> Value {
